@@ -133,6 +133,34 @@ pub mod ptr {
     }
 }
 
+/// Method forms of raw-pointer reads and writes (`p.read_unaligned()`, `p.write_volatile(v)`, ...):
+/// the generator renames them to these, which go through the simulated address space.
+pub trait SimPtrConst<T> {
+    /// # Safety
+    /// as `std::ptr::read_unaligned`
+    unsafe fn sim_read(self) -> T;
+}
+impl<T> SimPtrConst<T> for *const T {
+    unsafe fn sim_read(self) -> T {
+        ptr::read(self)
+    }
+}
+impl<T> SimPtrConst<T> for *mut T {
+    unsafe fn sim_read(self) -> T {
+        ptr::read(self as *const T)
+    }
+}
+pub trait SimPtrMut<T> {
+    /// # Safety
+    /// as `std::ptr::write_unaligned`
+    unsafe fn sim_write(self, v: T);
+}
+impl<T> SimPtrMut<T> for *mut T {
+    unsafe fn sim_write(self, v: T) {
+        ptr::write(self, v)
+    }
+}
+
 /// Replacement for the `libc` crate inside the transplanted crate: the real crate re-exported,
 /// with the memory-management calls going to the simulated kernel.
 #[allow(non_camel_case_types)]
@@ -556,12 +584,39 @@ pub mod mach2 {
         pub const VM_PROT_COPY: i32 = 0x10;
     }
     pub mod vm_statistics {
+        pub const VM_FLAGS_FIXED: i32 = 0x0;
         pub const VM_FLAGS_ANYWHERE: i32 = 0x1;
         pub const VM_FLAGS_OVERWRITE: i32 = 0x4000;
         pub const VM_FLAGS_RETURN_DATA_ADDR: i32 = 0x100000;
     }
+    pub mod vm_page_size {
+        use crate::world::with_world;
+        /// # Safety
+        /// none needed here (the real one reads an extern static)
+        pub unsafe fn mach_vm_trunc_page(x: u64) -> u64 {
+            with_world(|w| x & !(w.page_size - 1))
+        }
+        /// # Safety
+        /// as above
+        pub unsafe fn mach_vm_round_page(x: u64) -> u64 {
+            with_world(|w| (x + w.page_size - 1) & !(w.page_size - 1))
+        }
+    }
     pub mod vm {
         use crate::world::{with_world, Owner};
+
+        /// the pages covering [addr, addr+size) leave the address space
+        pub unsafe fn mach_vm_deallocate(_task: u32, addr: u64, size: u64) -> i32 {
+            with_world(|w| {
+                let ps = w.page_size;
+                let a0 = addr & !(ps - 1);
+                let a1 = (addr + size + ps - 1) & !(ps - 1);
+                if a1 > a0 && w.sys_munmap(a0, a1 - a0) != 0 {
+                    return 1;
+                }
+                0
+            })
+        }
 
         /// Model: ANYWHERE -> a private copy ("alias") of the source pages at a fresh address;
         /// OVERWRITE -> the pages covering the target range are replaced by the source pages.
@@ -580,10 +635,14 @@ pub mod mach2 {
             _inherit: u32,
         ) -> i32 {
             let overwrite = flags & super::vm_statistics::VM_FLAGS_OVERWRITE != 0;
+            // XNU vm_map_remap: with VM_FLAGS_RETURN_DATA_ADDR the mapping covers every page the
+            // data [addr, addr+size) touches and the data's own address is returned; without it
+            // the addresses are truncated to their pages and round_page(size) bytes are mapped
+            let rda = flags & super::vm_statistics::VM_FLAGS_RETURN_DATA_ADDR != 0;
             let r = with_world(|w| {
                 let ps = w.page_size;
                 let s0 = src_address & !(ps - 1);
-                let s1 = (src_address + size + ps - 1) & !(ps - 1);
+                let s1 = if rda { (src_address + size + ps - 1) & !(ps - 1) } else { s0 + ((size + ps - 1) & !(ps - 1)) };
                 let data = match w.peek(s0, (s1 - s0) as usize) {
                     Some(d) => d,
                     None => return Err(1),
@@ -611,7 +670,7 @@ pub mod mach2 {
                         }
                     };
                     w.map_fixed(base, s1 - s0, prot, Owner::Alias, Some(data));
-                    let ret = base + (src_address - s0);
+                    let ret = base + if rda { src_address - s0 } else { 0 };
                     w.log_remap(src_address, ret, size, false);
                     Ok((ret, prot))
                 } else {
@@ -652,7 +711,7 @@ pub mod mach2 {
                             }
                         }
                     }
-                    Ok((t, prot))
+                    Ok((if rda { t } else { t0 }, prot))
                 }
             });
             match r {
